@@ -516,6 +516,7 @@ class TurnLoop(Dispatch):
                     block(st.body if decide(st.test) else st.orelse)
                 elif isinstance(st, ast.While):
                     n = 0
+                    broke = False
                     while decide(st.test):
                         n += 1
                         if n > max_iter:
@@ -523,9 +524,12 @@ class TurnLoop(Dispatch):
                         try:
                             block(st.body)
                         except _Break:
+                            broke = True
                             break
                         except _Continue:
                             continue
+                    if not broke and st.orelse:
+                        block(st.orelse)          # while ... else: runs when the condition became false
                 elif isinstance(st, ast.Break):
                     raise _Break()
                 elif isinstance(st, ast.Continue):
